@@ -16,6 +16,7 @@ HERE = os.path.dirname(os.path.abspath(__file__))
 if HERE not in sys.path:
     sys.path.insert(0, HERE)
 
+from tfl import Metadata  # noqa: E402
 from tfl import (Buffer, BuiltinOperator, BuiltinOptions, Model, Operator, OperatorCode,  # noqa: E402
                  QuantizationParameters, SubGraph, Tensor, TensorType)
 
@@ -126,6 +127,12 @@ class Net:
                     buf_data.append(None)  # one (empty) buffer per tensor like the TFLite converter
                     tens_buf.append(len(buf_data) - 1)
             tens_bufs.append(tens_buf)
+        # "<family>!meta": metadata entries of the input model (each names a buffer of its own), as converters write them
+        meta_entries = list(getattr(self, "metadata", None) or [])
+        meta_buf = []
+        for _, d in meta_entries:
+            buf_data.append(bytes(d))
+            meta_buf.append(len(buf_data) - 1)
         buf_offs = []
         for d in buf_data:
             dv = None
@@ -258,7 +265,19 @@ class Net:
         cv = vec(Model.ModelStartOperatorCodesVector, code_offs)
         bv = vec(Model.ModelStartBuffersVector, buf_offs)
         desc = b.CreateString("verif netgen " + self.name)
+        mv = None
+        if meta_entries:
+            moffs = []
+            for (mname, _), bi in zip(meta_entries, meta_buf):
+                ns = b.CreateString(mname)
+                Metadata.MetadataStart(b)
+                Metadata.MetadataAddName(b, ns)
+                Metadata.MetadataAddBuffer(b, bi)
+                moffs.append(Metadata.MetadataEnd(b))
+            mv = vec(Model.ModelStartMetadataVector, moffs)
         Model.ModelStart(b)
+        if mv is not None:
+            Model.ModelAddMetadata(b, mv)
         Model.ModelAddVersion(b, 3)
         Model.ModelAddOperatorCodes(b, cv)
         Model.ModelAddSubgraphs(b, sgv)
@@ -2365,6 +2384,9 @@ FAMILIES["cpu_fan"] = fam_cpu_fan
 def generate(family, seed):
     """family may be "single:<kind>" / "unsupported:<kind>" to fix the operator kind"""
     rng = random.Random("%s/%s" % (family, seed))
+    with_meta = family.endswith("!meta")          # "<family>!meta": the model carries five metadata entries
+    if with_meta:
+        family = family[:-len("!meta")]
     main_anon = family.endswith("!anon")          # "<family>!anon": the main subgraph carries no name (optional in the schema)
     if main_anon:
         family = family[:-len("!anon")]
@@ -2376,6 +2398,9 @@ def generate(family, seed):
             # other draws of a (family, seed) do not move)
             net.legacy_minmax = random.Random("minmax/%s/%s" % (family, seed)).random() < 0.25
             net.main_anon = main_anon
+            if with_meta:
+                net.metadata = [("min_runtime_version", b"1.14.0" + bytes(10)), ("TFLITE_METADATA", bytes(range(48))),
+                                ("verif.note", b"left alone by the compiler"), ("a", b"\x01"), ("zz_last", bytes(7))]
             return net
     raise RuntimeError("generator %s produced nothing" % family)
 
